@@ -63,13 +63,36 @@ Section EVAL.
   (* ------------------------------------------------------------ non-arithmetic operators and builtins *)
   Definition dispatch_error {A} (what : string) : prog A := throw (EStd "dispatch_error" what).
 
-  Definition string_of_value (o : option obj) : prog string :=
+  (* to_string: Boxed_Number::to_string / bool / string in C++, and the prelude's
+     `def to_string(x) : call_exists(range, x) && !x.is_type("string") { "[" + x.join(", ") + "]" }` for containers *)
+  Fixpoint join_strings (l : list string) : string :=
+    match l with
+    | [] => ""
+    | [x] => x
+    | x :: r => x ++ ", " ++ join_strings r
+    end.
+
+  Fixpoint to_string_deep (depth : nat) (d : dloc) : prog string :=
+    o <- obj_of d ;;
     match o with
     | Some (ONum _ (TI _ _) (VI z)) => Ret (dec_of_z z)
     | Some (OBool b) => Ret (if b then "true" else "false")
     | Some (OStr s) => Ret s
+    | Some (OVec l) =>
+        match depth with
+        | O => unsup "to_string of a deeply nested container"
+        | S depth' =>
+            parts <- (fix go (l : list dloc) : prog (list string) :=
+                        match l with
+                        | [] => Ret []
+                        | x :: r => sx <- to_string_deep depth' x ;; sr <- go r ;; Ret (sx :: sr)
+                        end) l ;;
+            Ret ("[" ++ join_strings parts ++ "]")
+        end
     | _ => unsup "to_string of this kind of value"
     end.
+
+  Definition string_of_value (d : dloc) : prog string := to_string_deep 6 d.
 
   Definition newline : string := String (ascii_of_nat 10) "".
 
@@ -135,9 +158,9 @@ Section EVAL.
     match args with
     | [a] =>
         o <- obj_of a ;;
-        if String.eqb name "print" then s <- string_of_value o ;; Prim (POut (s ++ newline)) ;;; void_var
-        else if String.eqb name "puts" then s <- string_of_value o ;; Prim (POut s) ;;; void_var
-        else if String.eqb name "to_string" then s <- string_of_value o ;; new_value (OStr s) false true
+        if String.eqb name "print" then s <- string_of_value a ;; Prim (POut (s ++ newline)) ;;; void_var
+        else if String.eqb name "puts" then s <- string_of_value a ;; Prim (POut s) ;;; void_var
+        else if String.eqb name "to_string" then s <- string_of_value a ;; new_value (OStr s) false true
         else if String.eqb name "throw" then throw (EBoxed a)
         else if String.eqb name "clone" then match o with Some ob => clone_obj ob | None => dispatch_error "clone" end
         else if String.eqb name "size" then
